@@ -42,10 +42,17 @@ Definition align_padding : Z -> Z -> site Z := align_padding_with align_guard_po
    pass by all loops together; result = the new count of started iterations (the loop then runs max 0 count times) ---- *)
 Definition diag_loop_budget : nat := 9%nat.
 Definition loop_iterations (count : Z) : Z := Z.max 0 count.
+(* what a loop that is entered adds to the counter: its iterations, i.e. nothing for a negative count (`loop_count.max(0)`);
+   without the clamp a negative count would refund budget to the loops that follow *)
+Definition loop_charge (count : Z) : Z := if loop_charge_clamped then loop_iterations count else count.
 Definition loop_enter (used count : Z) : site Z :=
   match loop_count_limit with
-  | Some limit => if limit - used <? count then SDiag diag_loop_budget else SOk (used + loop_iterations count)
-  | None => SOk (used + loop_iterations count)
+  | Some limit =>
+      if negb (in_i64 (limit - used)) then SPanic                      (* `MAX_LOOP_ITERATIONS - self.loop_iterations` *)
+      else if limit - used <? count then SDiag diag_loop_budget
+      else if negb (in_i64 (used + loop_charge count)) then SPanic      (* `self.loop_iterations += ..` *)
+      else SOk (used + loop_charge count)
+  | None => SOk (used + loop_charge count)
   end.
 
 (* ---- Identifier::new and the names that reach it from strings ---- *)
